@@ -6,5 +6,6 @@ CONSTANT HandleProgs <- MCHandleProgs
 CONSTANT MaxCalls = 2
 CONSTANT NReaders = 2
 INVARIANT MutualExclusion NonReentrant
-PROPERTY Termination
+PROPERTY Termination Refines
+INVARIANT AbsProgress
 CHECK_DEADLOCK TRUE
